@@ -357,7 +357,10 @@ func straceJob() driver.Job {
 			byName[d.name] = d
 		}
 		infra := func(format string, a ...any) {
-			c.Infra = append(c.Infra, "STRACE-CONFORMANCE "+fmt.Sprintf(format, a...))
+			// a disagreement between the shim and the kernel is a broken assumption of the crash
+			// enumeration: a note (exhaustive=false), neither a violation nor an infrastructure error
+			c.Count("conformance_disagreements", 1)
+			c.Notes = append(c.Notes, "ASSUMPTION-BROKEN vos shim (credentials store): "+fmt.Sprintf(format, a...))
 		}
 		for si, s := range scripts() {
 			d := byName[s.doc]
